@@ -1379,10 +1379,75 @@ class _Suppress(ast.NodeTransformer):
         return node
 
 
+class _UnrollRange(ast.NodeTransformer):
+    """tuple(E(i) for i in range(3)) -> (E(0), E(1), E(2));  [E(i) for i in range(2)] -> [E(0), E(1)]   (constant range of at most 8, no filter)"""
+    def __init__(self):
+        self.n = 0
+
+    @staticmethod
+    def _expand(comp):
+        if len(comp.generators) != 1:
+            return None
+        g = comp.generators[0]
+        if g.ifs or g.is_async or not isinstance(g.target, ast.Name):
+            return None
+        it = g.iter
+        if not (isinstance(it, ast.Call) and isinstance(it.func, ast.Name) and it.func.id == "range" and len(it.args) == 1 and not it.keywords
+                and isinstance(it.args[0], ast.Constant) and isinstance(it.args[0].value, int) and 0 < it.args[0].value <= 8):
+            return None
+        out = []
+        for k in range(it.args[0].value):
+            e = copy_ast(comp.elt)
+            for par in ast.walk(e):
+                for f, v in ast.iter_fields(par):
+                    if isinstance(v, ast.Name) and v.id == g.target.id and isinstance(v.ctx, ast.Load):
+                        setattr(par, f, ast.copy_location(ast.Constant(value=k), v))
+                    elif isinstance(v, list):
+                        for j, x in enumerate(v):
+                            if isinstance(x, ast.Name) and x.id == g.target.id and isinstance(x.ctx, ast.Load):
+                                v[j] = ast.copy_location(ast.Constant(value=k), x)
+            if isinstance(e, ast.Name) and e.id == g.target.id:
+                e = ast.copy_location(ast.Constant(value=k), e)
+            out.append(e)
+        return out
+
+    def visit_Call(self, node):
+        self.generic_visit(node)
+        if isinstance(node.func, ast.Name) and node.func.id in ("tuple", "list") and len(node.args) == 1 and not node.keywords and isinstance(node.args[0], (ast.GeneratorExp, ast.ListComp)):
+            elts = self._expand(node.args[0])
+            if elts is not None:
+                new = (ast.Tuple if node.func.id == "tuple" else ast.List)(elts=elts, ctx=ast.Load())
+                ast.copy_location(new, node)
+                for x in ast.walk(new):
+                    if hasattr(node, "_module") and not hasattr(x, "_module"):
+                        x._module = node._module
+                    if not hasattr(x, "lineno"):
+                        ast.copy_location(x, node)
+                self.n += 1
+                return new
+        return node
+
+    def visit_ListComp(self, node):
+        self.generic_visit(node)
+        elts = self._expand(node)
+        if elts is not None:
+            new = ast.copy_location(ast.List(elts=elts, ctx=ast.Load()), node)
+            for x in ast.walk(new):
+                if hasattr(node, "_module") and not hasattr(x, "_module"):
+                    x._module = node._module
+                if not hasattr(x, "lineno"):
+                    ast.copy_location(x, node)
+            self.n += 1
+            return new
+        return node
+
+
 def canonical_spellings(prog) -> None:
     for m in prog.modules.values():
         if any(isinstance(n, ast.With) for n in ast.walk(m.tree)) and "suppress" in m.src:
             m.tree = _Suppress().visit(m.tree)
+        if "range(" in m.src:
+            m.tree = _UnrollRange().visit(m.tree)
         if "map(" in m.src:
             from .inline import load_inventory
             inv = load_inventory()
